@@ -271,10 +271,10 @@ def spec_view_of_impl(dump: str) -> str:
 
 
 def strip_flags(spec: str):
+    """(kept for the call sites) the spec dump carries no finding flags any more"""
     if spec == 'ERR':
         return 'ERR', []
-    recs = [r.split(',') for r in spec.split('|')]
-    return '|'.join(','.join(r[:4]) for r in recs), [r[4] == '1' for r in recs]
+    return spec, [False] * (spec.count('|') + 1)
 
 
 # ------------------------------------------------------------------------------------------
@@ -736,11 +736,14 @@ def E(name, kids=(), text=None, tail=None, attrs=(), ns=()):
 def corpus() -> list[dict]:
     base = dict(lib='E', tree=False, frag=None, ns=None, path=[], pro=[], epi=[], direct=False)
     out = []
-    # F02a  <a><b>1<c>2</c></b>3</a>: string(a) = '132'
+    # former F02a  <a><b>1<c>2</c></b>3</a>: string(a) was '132'; <r><a>1<b>2</b>3</a>T<c/>U</r> was '1T23U'
     t = E('a', [E('b', [E('c', text='2')], text='1', tail='3')])
+    tr = E('r', [E('a', [E('b', text='2', tail='3')], text='1', tail='T'), E('c', tail='U')])
     for lib in 'EL':
         out.append(dict(base, lib=lib, top=t))
         out.append(dict(base, lib=lib, top=t, tree=True))
+        out.append(dict(base, lib=lib, top=tr))
+        out.append(dict(base, lib=lib, top=tr, tree=True))
     # fixed: tail after a comment / PI, document-level comments
     t2 = E('a', [('C', 'c', 'y'), E('b', text='z', tail='w'), ('P', 'pi', 'q', 'v')], text='x')
     for lib in 'EL':
@@ -803,6 +806,11 @@ def compare(run: Run, cases: list[dict], nops: int = 6, stats: bool = True) -> N
                                   ('xml' if any(k == 'xml' for k, _ in c['ns']) else '') +
                                   ('default' if any(k == '' for k, _ in c['ns']) else '') + f'#{len(c["ns"])}'))
             st.count(f'nodes:{min(len(nodes), 64) // 8 * 8}+')
+            def late(n, top=True):
+                return n[0] == 'E' and ((not top and n[6] not in (None, '') and any(k[0] == 'E' for k in n[5]))
+                                        or any(late(k, False) for k in n[5]))
+            if c['top'] is not None and late(c['top']):
+                st.count('mixed-content: element with element children AND a tail (inside the root)')
             if c['pro'] or c['epi']:
                 st.count('lxml-doc-siblings')
             if c['lib'] == 'L' and b.top is not None:
@@ -827,15 +835,8 @@ def compare(run: Run, cases: list[dict], nops: int = 6, stats: bool = True) -> N
                 st.count('called:build_*_node_tree directly')
         if impl_spec != spec:
             tags = []
-            if not impl_spec.startswith(('ERR', 'NONSTRICT', 'ITER')) and spec != 'ERR' and '!' not in impl_spec:
-                ri, rs = impl_spec.split('|'), spec.split('|')
-                if len(ri) == len(rs):
-                    diff = [k for k in range(len(ri)) if ri[k] != rs[k]]
-                    # only string values of nodes inside the F02a region differ
-                    if diff and all(flags[k] and ri[k].split(',')[:3] == rs[k].split(',')[:3] for k in diff):
-                        tags = ['F02a']
-            if stats and tags:
-                st.count('F02a-region-hit')
+            if stats and not impl_spec.startswith(('ERR', 'NONSTRICT', 'ITER')) and spec != 'ERR':
+                st.count('string-value-or-image-mismatch')
             run.disagree(Disagreement(case, impl_spec, model_spec, spec=spec, what='xdm-image',
                                       site='tree_builders / xpath_nodes / etree_iter_strings', tags=tags))
         if dump != model:
